@@ -201,6 +201,20 @@ def draw_obs_layout(rng, wn, kmax=40):
             w = rng.uniform(0.2, 1.0, K) * D
         else:
             w = np.full(K, float(rng.uniform(0.3, 1.0)) * D)
+        if rng.random() < 0.25 and K >= 4:
+            # one or two broad bins laid over the channels (a white-light / photometric point among spectroscopic
+            # channels): bins overlap each other, a wider bin follows narrower ones in centre order
+            for _b in range(int(rng.integers(1, 3))):
+                k = float(rng.uniform(2.0, K - 1.0))
+                half = 0.5 * k * D
+                cc = float(rng.uniform(a + half, b - half))
+                cc += 0.013 * D                      # never exactly on a channel centre
+                if cc + half <= b + 1e-9 * D and np.min(np.abs(c - cc)) > 1e-3 * D:
+                    c = np.append(c, cc)
+                    w = np.append(w, 2 * half)
+            order = np.argsort(c)
+            c, w = c[order], w[order]
+            return {'c': c, 'w': w, 'D': D, 'K': len(c), 'width_kind': 3, 'native_spacing': spacing}
         return {'c': c, 'w': w, 'D': D, 'K': K, 'width_kind': kindw, 'native_spacing': spacing}
     return None
 
@@ -258,6 +272,9 @@ def catalogue(spec, model):
     cat['planet_radius'] = dict(comp='planet', valid=(0.85 * spec['planet_radius'], 1.15 * spec['planet_radius']))
     cat['planet_mass'] = dict(comp='planet', valid=(0.85 * spec['planet_mass'], 1.2 * spec['planet_mass']))
     t = spec['temperature']
+    if t['kind'] != 'npoint':          # N-point pressure nodes are tied to the pressure range
+        cat['atm_max_pressure'] = dict(comp='pressure', valid=(spec['pmax'] / 2.5, spec['pmax'] * 2.5))
+        cat['atm_min_pressure'] = dict(comp='pressure', valid=(spec['pmin'] / 2.0, spec['pmin'] * 2.5))
     if t['kind'] == 'isothermal':
         cat['T'] = dict(comp='temperature', valid=(0.75 * t['T'], 1.25 * t['T']))
     elif t['kind'] == 'npoint':
